@@ -26,7 +26,7 @@ using namespace tbox::terminal;
 namespace {
 
 enum Key { K_CHAR = 0, K_ENTER, K_BS, K_DEL, K_LEFT, K_RIGHT, K_HOME, K_END, K_UP, K_DOWN, K_ENTER_LF, K_TAB, K_JUNK, K_NKEY };
-static const char ALPHA[] = "pab x019!-hz";   // no '#', no ';', no quotes: keeps the reference model of command execution small
+static const char ALPHA[] = "pab x019!-hz2345678";   // no '#', no ';', no quotes: keeps the reference model of command execution small
 
 // plan A (cfg hostile=0):  key <k> <c>      seg <nkeys> <dt_ms>
 // plan B (cfg hostile=1):  raw <sess> <seed> <len> <dt_ms>      rawfix <sess> <which> <dt_ms>      drop <sess> <dt_ms>
@@ -42,12 +42,23 @@ void generate(sim::Rng &r, uint64_t seed, const std::string &tier, sim::Plan &p)
     auto key = [&](long k) { sim::Op op; op.kind = "key"; op.a = {k, 0}; p.ops.push_back(op); };
     int nlines = (int)r.range(1, thorough ? 30 : 12);
     if (r.chance(150)) nlines = (int)r.range(20, 28);     // enough lines to exceed the history capacity
-    static const char *words[] = {"p", "p a", "p b x", "p 1 0", "z", "history", "!!", "!0", "!1", "!-1", "!-2", "!19", "!20", "!-20", "!-21", "!x", "!", "!-", "!1x", "!99999999999", "!-99999999999", "h", "", " ", "p  a", "ab"};
+    static const char *words[] = {"p", "p a", "p b x", "p 1 0", "z", "history", "!!", "!0", "!1", "!-1", "!-2", "!19", "!20", "!-20", "!-21", "!x", "!", "!-", "!1x", "!99999999999", "!-99999999999",
+                                  "!4294967296", "!4294967298", "!-4294967295", "!99999999999999999999", "!2147483648", "!-2147483648", "!-2147483649", "!2147483647", "!-99999999999999999999",
+                                  "h", "", " ", "p  a", "ab"};
     for (int l = 0; l < nlines; ++l) {
       if (r.chance(250)) { int n = (int)r.range(1, 4); for (int i = 0; i < n; ++i) key(r.chance(600) ? K_UP : K_DOWN); }
-      std::string w = words[r.below(r.chance(120) ? 26 : 19)];
+      std::string w = words[r.below(r.chance(120) ? 35 : r.chance(150) ? 30 : 19)];
       if (l == 0 && r.chance(200)) w = "!!";                 // history reference on an empty history
       if (r.chance(70)) { sim::Op op; op.kind = "key"; op.a = {K_JUNK, (long)r.below(9)}; p.ops.push_back(op); }   // a key the editor does not know, before the line
+      if (r.chance(50)) {
+        // a long line, then an insertion far left of its end (what is right of the cursor has to be redrawn when echo is on)
+        static const long lens[] = {100, 126, 127, 128, 129, 130, 200, 254, 255, 256, 257, 300, 520};
+        w = "p " + std::string((size_t)lens[r.below(13)], 'a');
+        type(w);
+        if (r.chance(500)) key(K_HOME); else { int nl = (int)r.range(120, 260); for (int i = 0; i < nl; ++i) key(K_LEFT); }
+        int ni = (int)r.range(1, 3); for (int i = 0; i < ni; ++i) { sim::Op op; op.kind = "key"; op.a = {K_CHAR, (long)r.below(sizeof(ALPHA) - 1)}; p.ops.push_back(op); }
+        w.clear();
+      }
       type(w);
       int nedit = r.chance(400) ? (int)r.range(1, 6) : 0;
       for (int i = 0; i < nedit; ++i) {
@@ -130,7 +141,7 @@ struct Model {
     if (cmd[0] == '!') {
       std::string sub = cmd.substr(1);
       if (sub == "!") {
-        if (hist.empty()) { undefined = true; undefined_why = "'!!' with an empty history must report an error"; return false; }
+        if (hist.empty()) { out += "Error: index out of range.\r\n"; return false; }
         cur = hist.back();
         return exec_line(cur, depth + 1);
       }
@@ -138,9 +149,9 @@ struct Model {
       size_t i = 0; bool neg = false;
       if (i < sub.size() && (sub[i] == '+' || sub[i] == '-')) { neg = sub[i] == '-'; ++i; }
       size_t d0 = i; long long v = 0; bool overflow = false;
-      while (i < sub.size() && isdigit((unsigned char)sub[i])) { v = v * 10 + (sub[i] - '0'); if (v > 2147483648LL) overflow = true; ++i; }
+      while (i < sub.size() && isdigit((unsigned char)sub[i])) { if (!overflow) { v = v * 10 + (sub[i] - '0'); if (v > 2147483648LL) overflow = true; } ++i; }
       if (i == d0) { out += "Error: parse index fail.\r\n"; return false; }
-      if (overflow || (!neg && v > 2147483647LL)) { undefined = true; undefined_why = "a history index that does not fit an int must be reported as an error"; return false; }
+      if (overflow || (!neg && v > 2147483647LL)) { out += "Error: index out of range.\r\n"; return false; }      // a number that does not fit an int addresses nothing
       long long idx = neg ? -v : v;
       std::string target; bool ok = false;
       if (idx >= 0) { if ((size_t)idx < hist.size()) { target = hist[(size_t)idx]; ok = true; } }
